@@ -11,12 +11,13 @@ import (
 
 // C01 — dishonest counterparts.  Every line is one handshake:
 //
-//	hs <xx|ik> <policy> <serverAdv> <clientAdv> <listed 0|1|2=listed then revoked> <name|noname>
+//	hs <xx|ik|ik2|ik3> <policy> <serverAdv> <clientAdv> <listed 0|1|2=listed then revoked> <name|noname>
+//	     (ik2, ik3: hidden mode with 1 or 2 certificates of other virtual hosts ahead of the addressed one)
 //	     -> c=<client ok> h=<handle offered> d=<data flows both ways>
 func main() { Main(map[string]*Suite{"C01": {Gen: gen, Run: run}}) }
 
 var (
-	modes      = []string{"xx", "ik"}
+	modes      = []string{"xx", "ik", "ik2"}
 	policies   = []string{"nil", "skip", "store", "authkeys", "both"}
 	serverAdvs = []string{"ok", "wrongkey", "othername", "othertype", "expired", "notyet", "wrongtype", "otherroot", "selfsigned"}
 	clientAdvs = []string{"ok", "wrongkey", "expired", "notyet", "otherroot", "selfsigned", "wrongtype"}
@@ -54,7 +55,7 @@ func gen(g *GenCtx) {
 		n = 1500 / g.Parts
 	}
 	for i := 0; i < n; i++ {
-		g.Op("hs %s %s %s %s %d %s", Pick(g.R, modes), Pick(g.R, policies), Pick(g.R, serverAdvs), Pick(g.R, clientAdvs),
+		g.Op("hs %s %s %s %s %d %s", Pick(g.R, []string{"xx", "xx", "ik", "ik", "ik2", "ik3"}), Pick(g.R, policies), Pick(g.R, serverAdvs), Pick(g.R, clientAdvs),
 			g.R.Intn(3), Pick(g.R, []string{"name", "name", "noname"}))
 	}
 }
@@ -70,8 +71,9 @@ func run(in *bufio.Scanner, out *bufio.Writer) {
 	for in.Scan() {
 		f := strings.Fields(in.Text())
 		res := "bad-op"
-		if len(f) == 7 && f[0] == "hs" && (f[1] == "xx" || f[1] == "ik") && (f[5] == "0" || f[5] == "1" || f[5] == "2") {
-			sc := hs.Scenario{Hidden: f[1] == "ik", Policy: f[2], ServerAdv: f[3], ClientAdv: f[4], KeyListed: f[5] == "1", Revoked: f[5] == "2",
+		if len(f) == 7 && f[0] == "hs" && (f[1] == "xx" || f[1] == "ik" || f[1] == "ik2" || f[1] == "ik3") && (f[5] == "0" || f[5] == "1" || f[5] == "2") {
+			decoys := map[string]int{"ik2": 1, "ik3": 2}[f[1]]
+			sc := hs.Scenario{Hidden: f[1] != "xx", Decoys: decoys, Policy: f[2], ServerAdv: f[3], ClientAdv: f[4], KeyListed: f[5] == "1", Revoked: f[5] == "2",
 				NoName: f[6] == "noname"}
 			res = Guard(func() string {
 				r := hs.Run(sc, nil)
